@@ -427,6 +427,30 @@ def run(case, obs):
     if obj != truth:
         cutarcs = [(lab[u], lab[v], c) for u, v, c in arcs3 if u in cut and v not in cut and c > 0]
         obs.violate("flow.value", f"objective={obj!r}, maximum flow={truth} (min cut {short(cutarcs, 300)})")
+        return
+    if case["arcs"] and (len(case["arcs"]) * 5 + n) % 16 == 0 and n <= 40:
+        # the caller's graph object, solved, edited in place (one capacity changed), solved again: every call is about
+        # the graph as it is at that moment
+        g = _graph(case)
+        r1 = call(obs, _flow.max_flow, g, fresh(lab[s]), fresh(lab[t]), what="max_flow[before edit]", budget=3_000_000)
+        k = (len(case["arcs"]) * 7 + n) % len(case["arcs"])
+        u, v, c, w = case["arcs"][k]
+        newc = 0 if c > 0 and (k % 2 == 0) else c + 3
+        lst = g[lab[u]]
+        pos = [i for i, a in enumerate(lst) if a[0] == lab[v] and a[1] == c][0]
+        lst[pos] = (lst[pos][0], newc, lst[pos][2])
+        arcs_e = [(a, b, (newc if i == k else cc)) for i, (a, b, cc, _) in enumerate(case["arcs"])]
+        try:
+            truth2, _cut2 = O.max_flow(n, arcs_e, s, t)
+        except O.TooBig:
+            return
+        r2 = call(obs, _flow.max_flow, g, fresh(lab[s]), fresh(lab[t]), what="max_flow[after edit]", budget=3_000_000)
+        obs.event("mf.edited-graph.checked")
+        if not is_crash(r1) and r1.objective != truth:
+            obs.violate("flow.value", f"second call on an equal graph: objective={r1.objective!r}, maximum flow={truth}")
+        if not is_crash(r2) and r2.objective != truth2:
+            obs.violate("flow.value-after-edit", f"same graph object after capacity of {lab[u]!r}->{lab[v]!r} went {c} -> {newc}: "
+                        f"objective={r2.objective!r}, maximum flow={truth2} (before the edit {truth})")
 
 
 def shrink(case):
